@@ -40,26 +40,26 @@ type Scenario struct {
 }
 
 type gen struct {
-	rt      *rapid.T
-	f       Features
-	pre     string
-	sb      strings.Builder // function bodies being written
-	top     strings.Builder // extra top-level decls
-	kinds   map[string]bool
-	depth   int
-	nfun    int
-	nlabel  int
-	nsite   int
-	budget  int
-	funcs   []string // callable generated helper functions: name(int,int) int
-	inLoop  int
-	labels  []string // enclosing loop labels
-	indent  int
+	rt        *rapid.T
+	f         Features
+	pre       string
+	sb        strings.Builder // function bodies being written
+	top       strings.Builder // extra top-level decls
+	kinds     map[string]bool
+	depth     int
+	nfun      int
+	nlabel    int
+	nsite     int
+	budget    int
+	funcs     []string // callable generated helper functions: name(int,int) int
+	inLoop    int
+	labels    []string // enclosing loop labels
+	indent    int
 	inClosure int // >0: inside a closure that may be stored in fn (no calls through fn)
-	noYield int // >0: inside a context where yield sites are not allowed (e.g. deferred closure with recover semantics kept simple)
+	noYield   int // >0: inside a context where yield sites are not allowed (e.g. deferred closure with recover semantics kept simple)
 }
 
-func (g *gen) kind(k string)            { g.kinds[k] = true }
+func (g *gen) kind(k string)               { g.kinds[k] = true }
 func (g *gen) ir(lo, hi int, l string) int { return rapid.IntRange(lo, hi).Draw(g.rt, l) }
 func (g *gen) pick(l string, xs ...string) string {
 	return rapid.SampledFrom(xs).Draw(g.rt, l)
@@ -249,7 +249,7 @@ func (g *gen) block(n int) {
 func (g *gen) stmt() {
 	g.budget--
 	g.yieldStmt()
-	max := 27
+	max := 30
 	if g.depth >= 3 {
 		max = 9 // only simple statements when nested deeply
 	}
@@ -436,6 +436,101 @@ func (g *gen) stmt() {
 		}
 		g.w("}")
 		g.depth--
+	case 28:
+		// operands of an index or selector target are evaluated exactly once by op-assignment
+		// and inc/dec; nx/kx/getp count their calls. The right-hand sides are literals: no
+		// second call shares the statement.
+		g.kind("once-operand")
+		switch g.ir(0, 9, "onceform") {
+		case 0:
+			g.w("if len(sl) > 0 {")
+			g.w("\tsl[nx(len(sl))] %s= %d", g.pick("onceop", "+", "-", "*", "^", "|", "<<"), g.ir(1, 5, "oncev"))
+			g.w("\tsl[0] = lim(sl[0])")
+			g.w("}")
+		case 1:
+			g.w("arr[nx(4)]%s", g.pick("onceid", "++", "--"))
+		case 2:
+			g.w("m[kx()] %s= %d", g.pick("onceop2", "+", "-", "&^"), g.ir(1, 9, "oncev2"))
+		case 3:
+			g.w("m[kx()]%s", g.pick("onceid2", "++", "--"))
+		case 4:
+			g.w("getp(pp).a %s= %d", g.pick("onceop3", "+", "-", "^"), g.ir(1, 9, "oncev3"))
+			g.w("pp.a = lim(pp.a)")
+		case 5:
+			g.w("getp(&p).c[nx(2)]%s", g.pick("onceid3", "++", "--"))
+		case 6:
+			g.w("*getpi(&i2) %s= %d", g.pick("onceop4", "+", "-", "|"), g.ir(1, 9, "oncev4"))
+			g.w("i2 = lim(i2)")
+		case 7:
+			g.w("{\n%s\tgrid := [2][2]int{{1, 2}, {3, 4}}\n%s\tgrid[nx(2)][nx(2)] %s= %d\n%s\ti3 = lim(i3 + grid[0][0] + grid[0][1]*3 + grid[1][0]*5 + grid[1][1]*7)\n%s}", ind(g), ind(g), g.pick("onceop5", "+", "*", "<<"), g.ir(1, 3, "oncev5"), ind(g), ind(g))
+		case 8:
+			g.w("s0 = cut(s0)")
+			g.w("{\n%s\tstrs := []string{s0, \"x\"}\n%s\tstrs[nx(2)] += \"+\"\n%s\ts0 = strs[0] + strs[1]\n%s}", ind(g), ind(g), ind(g), ind(g))
+		default:
+			g.w("{\n%s\tfs := []float64{f0, 1.5}\n%s\tfs[nx(2)] *= 2\n%s\tf0 = fclamp(fs[0] + fs[1])\n%s}", ind(g), ind(g), ind(g), ind(g))
+		}
+		g.w("out(%q + itoa(cn))", g.pre+"calls ")
+	case 29, 30:
+		// break inside type switches (and selects): it leaves the switch, never the loop around it
+		g.kind("typeswitch-break")
+		clauses := []string{"int", "string", "nil", "default"}
+		brk := map[string]bool{}
+		pattern := g.ir(0, 5, "brkpattern")
+		switch pattern {
+		case 0:
+			brk["default"] = true
+		case 1:
+			brk["int"] = true
+		case 2:
+			brk["default"], brk["string"] = true, true
+		case 3:
+			brk["nil"] = true
+		case 4:
+			brk["default"], brk["int"], brk["nil"] = true, true, true
+		}
+		body := func(c string) string {
+			if brk[c] {
+				return fmt.Sprintf("\n%s\t\tif k%%2 == %d {\n%s\t\t\tbreak\n%s\t\t}", ind(g), g.ir(0, 1, "brkpar"), ind(g), ind(g))
+			}
+			return ""
+		}
+		bound := ""
+		if g.ir(0, 1, "tsbound") == 0 {
+			bound = "x := "
+		}
+		use := func(e string) string {
+			if bound == "" {
+				return "1"
+			}
+			return e
+		}
+		_ = clauses
+		if g.ir(0, 3, "selectform") == 0 {
+			g.w("{\n%s\tch := make(chan int, 2)\n%s\tch <- 5\n%s\tfor k := 0; k < 4; k++ {\n%s\t\tselect {\n%s\t\tcase v := <-ch:\n%s\t\t\ti1 = lim(i1 + v)%s\n%s\t\t\ti1 = lim(i1 + 100)\n%s\t\tdefault:%s\n%s\t\t\ti2 = lim(i2 + 10)\n%s\t\t}\n%s\t\ti3 = lim(i3 + 1)\n%s\t}\n%s}",
+				ind(g), ind(g), ind(g), ind(g), ind(g), ind(g), strings.ReplaceAll(body("int"), "\t\t", "\t\t\t"), ind(g), ind(g), strings.ReplaceAll(body("default"), "\t\t", "\t\t\t"), ind(g), ind(g), ind(g), ind(g), ind(g))
+		} else {
+			g.w("for k, v := range []interface{}{i0, s0, nil, f0, 7, \"z\", nil} {")
+			g.w("\tswitch %sv.(type) {", bound)
+			g.w("\tcase int:%s", body("int"))
+			g.w("\t\ti1 = lim(i1 + %s)", use("x"))
+			g.w("\tcase string:%s", body("string"))
+			g.w("\t\ti2 = lim(i2 + %s)", use("len(x)"))
+			g.w("\tcase nil:%s", body("nil"))
+			g.w("\t\ti2 = lim(i2 + 1000)")
+			if pattern != 5 {
+				g.w("\tdefault:%s", body("default"))
+				g.w("\t\ti1 = lim(i1 - 3)")
+				if bound != "" {
+					g.w("\t\t_ = x")
+				}
+			} else if bound != "" {
+				g.w("\tcase float64:")
+				g.w("\t\t_ = x")
+			}
+			g.w("\t}")
+			g.w("\ti3 = lim(i3 + k + 1)")
+			g.w("}")
+		}
 	case 17:
 		g.kind("closure")
 		g.depth++
